@@ -27,6 +27,9 @@ pub struct Engine {
 
 impl Engine {
     pub fn spawn(bin: &Path) -> Result<Engine, String> {
+        if std::env::var("VERIF_NO_BLACKBOX").is_ok() {
+            return Err("black-box parts are skipped in the sanitizer pass (the release binary is not instrumented)".into());
+        }
         let mut child = Command::new(bin).stdin(Stdio::piped()).stdout(Stdio::piped()).stderr(Stdio::null()).spawn().map_err(|e| format!("{}: {}", bin.display(), e))?;
         let stdout = child.stdout.take().ok_or("no stdout")?;
         let stdin = child.stdin.take();
